@@ -1,7 +1,12 @@
 #!/bin/bash
-# usage: try_seed.sh <seed-id> <prop>...   applies the seeded patch to /repo, runs the checks, reverts.
-S=/verif/seeded/$1; shift
-cd /repo && git apply "$S/patch.diff" || exit 2
-cd /verif
-for p in "$@"; do ./bin/lvcheck -prop $p 2>&1 | grep -E "^(VIOLATION|lvcheck|[a-z].*\[[A-Z]+\])" | cut -c1-260; done
-git -C /repo checkout -- .
+# usage: try_seed.sh <seed-id> <prop...>   — applies /verif/seeded/<seed-id>/patch.diff in a scratch worktree of /repo HEAD
+# (so that /repo itself, and anything running on it, is left alone), runs the named checks against it and removes it.
+set -u
+S=$1; shift
+WT=$(mktemp -d /tmp/try-wt-XXXX); SV=$(mktemp -d /tmp/try-sv-XXXX)
+git -C /repo worktree add -q --detach "$WT" HEAD || exit 2
+trap 'git -C /repo worktree remove --force "$WT" >/dev/null 2>&1; rm -rf "$WT" "$SV"' EXIT
+cp /verif/known_findings.json "$SV/"; mkdir -p "$SV/evidence"
+if ! git -C "$WT" apply "/verif/seeded/$S/patch.diff"; then echo "PATCH-DOES-NOT-APPLY $S"; exit 3; fi
+P=$(echo "$@" | tr ' ' ',')
+/verif/bin/lvcheck -prop "$P" -repo "$WT" -verif "$SV" 2>&1 | grep -v "^WARNING conda"
